@@ -187,6 +187,14 @@ class RegSystem:
             ctx.close("routeC.mu", np.asarray(dens.mu)[0], mu, facts=facts)
             ctx.close("routeC.Sigma", np.asarray(dens.Sigma)[0], Sig, facts=facts)
             ctx.close("set_y.routeC_evidence", np.asarray(pm.log_integral()), np.array([ev]), facts=facts)
+            # "... and normalising": the same measure, evidence taken first, then normalised in place, then queried again
+            ex = np.asarray(pm.integrate("x"))
+            pm.normalize()
+            ctx.close("routeC.normalized.log_integral", np.asarray(pm.log_integral()), np.zeros(1), tol=1e-8, facts=facts)
+            ctx.close("routeC.normalized.integral", np.asarray(pm.integrate("1")), np.ones(1), facts=facts)
+            ctx.close("routeC.normalized.mean", np.asarray(pm.integrate("x"))[0], mu, facts=facts)
+            ctx.close("routeC.normalized.second_moment", np.asarray(pm.integrate("xx'"))[0], Sig + np.outer(mu, mu), facts=facts)
+            ctx.close("routeC.normalized.value", np.asarray(pm.evaluate_ln(J(mu[None])))[0], rm.gauss_logpdf(mu[None], mu, Sig), facts=facts)
         return ok
 
 
